@@ -2,6 +2,7 @@ import re
 from abc import ABC
 import datetime
 import calendar
+import decimal
 
 from dateutil import parser as date_parser
 from dateutil.relativedelta import relativedelta
@@ -330,16 +331,22 @@ class AbstractExcelInPython(ABC):
 
         return result
 
+    @staticmethod
+    def _decimal_round(number: float, num_digits: int, rounding: str):
+        # Excel округляет десятичную запись числа (15 значащих цифр), а не его двоичное представление
+        text = f'{number:.15g}' if isinstance(number, float) else str(int(number))
+        quantum = decimal.Decimal(1).scaleb(-int(num_digits))
+        result = decimal.Decimal(text).quantize(quantum, rounding=rounding, context=decimal.Context(prec=800))
+        return int(result) if isinstance(number, int) and result == result.to_integral_value() else float(result)
+
     def _round(self, number: float, num_digits: int):
-        return round(number, int(num_digits))
+        return self._decimal_round(number, num_digits, decimal.ROUND_HALF_UP)
 
     def _roundup(self, number: float, num_digits: int):
-        factor = 10 ** num_digits
-        return ceil(number * factor) / factor
+        return self._decimal_round(number, num_digits, decimal.ROUND_UP)
 
     def _rounddown(self, number: float, num_digits: int):
-        factor = 10 ** num_digits
-        return floor(number * factor) / factor
+        return self._decimal_round(number, num_digits, decimal.ROUND_DOWN)
 
     def _date(self, year: int, month: int, day: int):
         if isinstance(year, str):
